@@ -565,8 +565,12 @@ def binop(op, a, b):
         for v in va.flat:
             v = conv(v, t)
             r = v % c
-            if r != 0 and (v < 0) != (c < 0):
-                return UNSPEC                   # sign convention for operands of opposite sign: not described
+            if t == 'i' and r != 0 and (v < 0) != (c < 0):
+                # integer matrices: the manual says "remainder after division" and nothing about the sign for operands of
+                # opposite sign (the C extension truncates, Python floors): not described
+                return UNSPEC
+            # 'd' results: the remainder is the one of Python's float %, r = v - floor(v / c) * c, with the sign of c - the
+            # manual applies % to the (float) elements of matrices interchangeably with Python numbers
             out.append(r)
         return Dense(t, va.size, out)
     if op == '**':
